@@ -451,20 +451,7 @@ impl Prop for NamesInARow {
         match out.slots.last() {
             Some(Slot::Ok { v: V::Dur(secs, 0), .. }) if *secs == exp => {}
             other => {
-                // F152: with three or more names the conversion is applied to the last name alone
-                let kf = match (other, c.conv) {
-                    (Some(Slot::Ok { v: V::Dur(secs, 0), .. }), Some((_, unit))) if c.groups.len() >= 3 => {
-                        let last: i64 = c.groups.last().unwrap().iter().map(|p| p.seconds()).sum();
-                        let rest: i64 = c.groups[..c.groups.len() - 1].iter().flatten().map(|p| p.seconds()).sum();
-                        if *secs == rest + floor_to(last, unit) {
-                            Some("F152")
-                        } else {
-                            None
-                        }
-                    }
-                    _ => None,
-                };
-                acc.fail_kf(format!("expected Duration({} s) got {:?}", exp, other.map(|s| s.brief())), kf)
+                acc.fail(format!("expected Duration({} s) got {:?}", exp, other.map(|s| s.brief())))
             }
         }
         acc.finish(rendered).nt(true).class("duration-names-in-a-row").class_if(c.groups.len() % 2 == 1, "odd-number-of-names").class_if(c.conv.is_some(), "followed-by-a-conversion")
